@@ -49,7 +49,8 @@ MENU = {
     "year": [2020],
     "copyright": ["Copyright 2020 Verif", "© 2020 " + S_LAT, S_AST],
     "trademark": ["Verif is a trademark", "Verif™ (tm) " + S_BMP],
-    "unitsPerEm": [1000, 2048, 750.5],
+    # 1010 and 500: the UPM-derived underline fallbacks (0.05 em, -0.075 em) land exactly on a half
+    "unitsPerEm": [1000, 2048, 750.5, 1010, 500],
     "descender": [-200, -250.5, 0, 30],
     "xHeight": [500, 480.5, 0],
     "capHeight": [700, 690.5],
